@@ -272,6 +272,7 @@ func (d *c09) closeGrid() []cell {
 func runC09(cfg *common.Config, rec *common.Recorder) {
 	d := &c09{rec: rec, cfg: cfg, yield: false}
 	total := extraInt(cfg.Extra, "total", 0)
+	salt := extraInt(cfg.Extra, "salt", 0) // lets two jobs of one tier use different yield seeds
 	if !d.calibrate() {
 		// The calibration itself produced a violation / inconclusive entry.
 		if rec.NumViolations() > 0 {
@@ -318,7 +319,7 @@ func runC09(cfg *common.Config, rec *common.Recorder) {
 	for i := cfg.Start; i < cfg.Start+cfg.Count; i++ {
 		c := grid[i%G]
 		rep := i / G
-		seed := common.CaseSeed(cfg.Seed, cfg.Prop+"/"+cfg.Mode, i)
+		seed := common.CaseSeed(cfg.Seed+uint64(salt)*7919, cfg.Prop+"/"+cfg.Mode, i)
 		rec.Case(i, c.String()+fmt.Sprintf(" rep=%d", rep))
 		out, b := d.runCell(i, c, seed, c.String())
 		if rep == 0 {
